@@ -34,6 +34,7 @@ type Outcome struct {
 	Evals       int64  // oracle evaluations
 	InfraErr    error
 	Sample      interface{}
+	Hashes      []string // app hash after every block (filled by the executors that replicas are compared on)
 }
 
 // Prop is one registered property check.
@@ -195,7 +196,12 @@ func cmdWorker(args []string) int {
 			if o.Trace != nil && p.Replay != nil {
 				tr := minimise(p, o.Trace, v)
 				tr.Property, tr.Check, tr.Signature, tr.Message = v.Property, v.Check, v.Signature, v.Message
-				l.TraceFile = writeReplay(p.ID, seed, tr)
+				if i < 0 {
+					// enumerated outcomes have no run seed: one file per enumeration step
+					l.TraceFile = writeReplayNamed(filepath.Join(verifDir(), "replays", fmt.Sprintf("%s-enum%d.json", p.ID, -1-i)), tr)
+				} else {
+					l.TraceFile = writeReplay(p.ID, seed, tr)
+				}
 			}
 		}
 		emitLine(l)
